@@ -13,7 +13,7 @@ PLAN = dict(
          "powers of two, multiples of 8 +-1 up to 137 and a stride of 5); c13.built constructs semantically valid but "
          "mis-sized payloads with the public API; c13.modes drives AEAD Open (every length 0..200 and every cut of a genuine "
          "ciphertext) and the XTS/HCTR decrypters in every SM4 dispatch tier; c13.sweep.tiers / c13.built.tiers repeat the "
-         "entry points that decrypt content with an SM4 mode in the noclmul, noaes, avx and sse tiers (thorough: aesni1 too), every constructed payload of 1..8 blocks in both guard placements; a der-oid mutator puts every value into the last two bytes of every OBJECT IDENTIFIER and replaces it by the other OIDs known to the run (seed OIDs + the library's exported ones; sampled in quick). a text-grammar mutator treats every string value (universal string and time types, GeneralName forms, the header lines of encrypted PEM blocks, the text of CFCA escrow blobs; BMPString in 2-octet units) as a little language: at EVERY position delete, cut, drop the head, insert and substitute each of 16 significant characters (quote, backslash, @ . : [ ] % / * , - space NUL LF non-ASCII; thorough 36), cut-and-end-with each of them, insert 8 significant tokens (two dots, two backslashes, backslash-quote, @@ :: :// %00 CRLF; thorough 16), double the string - enclosing DER lengths recomputed (on the entry points that feed the X.509 / CSR / CRL / PEM / escrow parsers directly; containers that embed certificates reach the same sub-parsers; not in the race variant); the seed certificates include a names PKI (root -> intermediate -> leaves) with every GeneralName form, every RFC 2821 mailbox form (quoted local parts, quoted pairs), URIs with userinfo/port/IPv6 literal/escapes, name constraints of all four handled kinds (permitted and excluded, IPv4/IPv6 masks) plus unhandled kinds, every string type, policy qualifiers, CRL/IDP/AIA forms; c13.names re-signs every DER-tree mutant (DER edits, re-lengths, text grammar; thorough: OIDs) of a leaf and of the intermediate with the issuer's key, so that Certificate.Verify gets past the signature check and runs the name-constraint and SAN sub-parsers on the hostile values (hostile leaf below the genuine CA; hostile intermediate between genuine root and leaf; the plain sweep also uses a hostile trust anchor), plus VerifyHostname with fixed and hostile host names; c13.built also constructs algebraically exceptional inputs with the harness' own arithmetic (ref/ec, ref/bn; confirmed by the reference verifier): SM2 (digest, signature) pairs with R = [s]G, r+s = n, r = e, small abscissas, [s]G+[t]P = infinity, [s]G = [t]P, structured honest nonces and range ends for nine digest forms (VerifyASN1, Verify, WithSM2 variants, key recovery, the generic verifier on P-384), SM2 ciphertexts with structured C1 (G, -G, P, x = 0/tiny/p-1, unreduced x+p, infinity encodings) and a genuine C3 in every layout, SM2 key agreement peers whose static key and ephemeral point sum to infinity or are equal (KeyExchange both roles, ecdh.SM2MQV), SM9 signatures/ciphertexts/wrapped keys/key-agreement messages with S or C1 = infinity, +-P1, +-Q, unreduced or off-curve (MAC genuine where the recipient can unwrap), SM9 master and user keys from hostile files (infinity, Ppub = -[h1]P, twist points outside the subgroup) then used. Thorough tier only: a coverage-guided fuzzing stage (Go native fuzzing, 150 000 executions per entry point from its valid artefacts) proposes failing inputs, each of which the child executes as one more case (c13.fuzzreplay). the product key kind x algorithm identifier: a PKI per key kind the parsers accept for signing (SM2, P-224, P-256, P-384, P-521, RSA 1024/2048, Ed25519: self-signed CA, a leaf whose subject key is of the next kind, request, revocation list, PKCS#7 signed data with attributes and over a caller-supplied digest) and a der-algid mutator that replaces every AlgorithmIdentifier element of every artefact by each of ~57 identifiers (smx509's signature table incl. the RSA-PSS parameter sets, pkcs7's digest and digest-encryption identifiers, key algorithm identifiers with each named curve, absent/NULL parameter variants, unknown ones) - alone (inconsistent), together with every byte-identical twin (inner and outer field of a certificate or CRL, both digest fields of a SignerInfo) and as the product digest x signature list for sibling pairs - on every entry point of the plain sweep; dedicated entry points then call every signature-checking accessor with keys of every kind (CheckSignatureFrom under each CA, CheckSignature / CheckSignatureWithDigest under the own key with digests of every size, Verify against a pool of all CAs, the hostile certificate as parent of children and CRLs of every kind, CSR CheckSignature incl. the CFCA parsers, CRL CheckSignatureFrom / CheckCRLSignature under each CA, pkcs7 Verify / VerifyWithChain / VerifyAsDigest*, cfca verifiers). One case = (entry point, artefact, mutator, range of <= 256 positions); "
+         "entry points that decrypt content with an SM4 mode in the noclmul, noaes, avx and sse tiers (thorough: aesni1 too), every constructed payload of 1..8 blocks in both guard placements; a der-oid mutator puts every value into the last two bytes of every OBJECT IDENTIFIER and replaces it by the other OIDs known to the run (seed OIDs + the library's exported ones; sampled in quick). a text-grammar mutator treats every string value (universal string and time types, GeneralName forms, the header lines of encrypted PEM blocks, the text of CFCA escrow blobs; BMPString in 2-octet units) as a little language: at EVERY position delete, cut, drop the head, insert and substitute each of 16 significant characters (quote, backslash, @ . : [ ] % / * , - space NUL LF non-ASCII; thorough 36), cut-and-end-with each of them, insert 8 significant tokens (two dots, two backslashes, backslash-quote, @@ :: :// %00 CRLF; thorough 16), double the string - enclosing DER lengths recomputed (on the entry points that feed the X.509 / CSR / CRL / PEM / escrow parsers directly; containers that embed certificates reach the same sub-parsers; not in the race variant); the seed certificates include a names PKI (root -> intermediate -> leaves) with every GeneralName form, every RFC 2821 mailbox form (quoted local parts, quoted pairs), URIs with userinfo/port/IPv6 literal/escapes, name constraints of all four handled kinds (permitted and excluded, IPv4/IPv6 masks) plus unhandled kinds, every string type, policy qualifiers, CRL/IDP/AIA forms; c13.names re-signs every DER-tree mutant (DER edits, re-lengths, text grammar; thorough: OIDs) of a leaf and of the intermediate with the issuer's key, so that Certificate.Verify gets past the signature check and runs the name-constraint and SAN sub-parsers on the hostile values (hostile leaf below the genuine CA; hostile intermediate between genuine root and leaf; the plain sweep also uses a hostile trust anchor), plus VerifyHostname with fixed and hostile host names; c13.built also constructs algebraically exceptional inputs with the harness' own arithmetic (ref/ec, ref/bn; confirmed by the reference verifier): SM2 (digest, signature) pairs with R = [s]G, r+s = n, r = e, small abscissas, [s]G+[t]P = infinity, [s]G = [t]P, structured honest nonces and range ends for nine digest forms (VerifyASN1, Verify, WithSM2 variants, key recovery, the generic verifier on P-384), SM2 ciphertexts with structured C1 (G, -G, P, x = 0/tiny/p-1, unreduced x+p, infinity encodings) and a genuine C3 in every layout, SM2 key agreement peers whose static key and ephemeral point sum to infinity or are equal (KeyExchange both roles, ecdh.SM2MQV), SM9 signatures/ciphertexts/wrapped keys/key-agreement messages with S or C1 = infinity, +-P1, +-Q, unreduced or off-curve (MAC genuine where the recipient can unwrap), SM9 master and user keys from hostile files (infinity, Ppub = -[h1]P, twist points outside the subgroup) then used. Thorough tier only: a coverage-guided fuzzing stage (Go native fuzzing, 150 000 executions per entry point from its valid artefacts) proposes failing inputs, each of which the child executes as one more case (c13.fuzzreplay). the product key kind x algorithm identifier: a PKI per key kind the parsers accept for signing (SM2, P-224, P-256, P-384, P-521, RSA 1024/2048, Ed25519: self-signed CA, a leaf whose subject key is of the next kind, request, revocation list, PKCS#7 signed data with attributes and over a caller-supplied digest) and a der-algid mutator that replaces every AlgorithmIdentifier element of every artefact by each of ~57 identifiers (smx509's signature table incl. the RSA-PSS parameter sets, pkcs7's digest and digest-encryption identifiers, key algorithm identifiers with each named curve, absent/NULL parameter variants, unknown ones) - alone (inconsistent), together with every byte-identical twin (inner and outer field of a certificate or CRL, both digest fields of a SignerInfo) and as the product digest x signature list for sibling pairs - on every entry point of the plain sweep; dedicated entry points then call every signature-checking accessor with keys of every kind (CheckSignatureFrom under each CA, CheckSignature / CheckSignatureWithDigest under the own key with digests of every size, Verify against a pool of all CAs, the hostile certificate as parent of children and CRLs of every kind, CSR CheckSignature incl. the CFCA parsers, CRL CheckSignatureFrom / CheckCRLSignature under each CA, pkcs7 Verify / VerifyWithChain / VerifyAsDigest*, cfca verifiers). A context grid (context.go) repeats the consuming entry points over values of their STRUCTURAL arguments, which select the code the hostile bytes reach, with artefacts valid in each context: SM9 Decrypt / DecryptASN1 / crypto.Decrypter / UnwrapKey (raw, DER, key package) for recipients whose identity has 5, 55, 61, 119 octets (residue classes of the KDF input within a hash block; thorough: 1, 51, 52, 55, 59, 60, 61, 63, 64, 119), genuine messages of 150 and 300 octets (KDF block-count classes 4-7 and >= 8; truncation walks every shorter length; thorough: 60/150/300 in both layouts plus SM4-CBC), caller-chosen UnwrapKey lengths 97 and 300 (thorough: 16, 33, 96, 97, 129, 300, 1000); the SM9 key exchange (both roles, hostile R and S values) for identity pairs of those lengths and key lengths 16/97/300 with the session messages of each context; SM2 decryption (all three option forms) under keys on P-224 and P-384 next to P-256/P-521/SM2 (every mutator kind on a 60-octet message) and for every curve with 150/300-octet messages (P-521: thorough); the SM2 key exchange confirmations for identity lengths (55,3) (119,61) (1,200) and key lengths 97/300/16 (thorough: eight combinations, identities up to 8191 octets); PKCS#8 decryption with passwords of 1 and 130 octets (thorough: 1, 55, 64, 65, 130, 300; four schemes), PKCS#7 / CFCA envelopes and PSK containers with 300-octet content. Context entry points take the mutator kinds whose mutants get past the point decoder (every truncation, ^0x01 at every position, DER edits and re-lengths, every other artefact unmodified - including the artefacts of the other contexts - and splices). When a library producer panics on the valid arguments of a context its artefact is replaced by a shaped one (genuine C1, lengths of the context) and noted, so that the consumers still decide. One case = (entry point, artefact, mutator, range of <= 256 positions); "
          "distinct = configuration | entry point / mutator. The hostile bytes sit in guard-page buffers (len == cap), three of "
          "four mutants against the upper page and one against the lower (thorough: every mutant in both placements).",
     # jobs start in this order on 16 workers: the long ones (pure-Go sweep, 32-bit build) first
@@ -42,7 +42,7 @@ PLAN = dict(
               thorough_only=True, wall=1800),
     exhaustive_note="for the seed artefacts of the run, the truncation class (every proper prefix), the four single-byte "
                     "substitution classes (every position) and the DER-edit class (every element x every edit) are enumerated "
-                    "completely for every catalogued (entry point, artefact) pair; everything else is sampled",
+                    "completely for every catalogued (entry point, artefact) pair (context-grid entry points, marked @ in their name: truncations, ^0x01 and DER edits only); everything else is sampled",
     assumptions=["'never fails to terminate' is decided as bounded progress: every case (<= 256 calls) returns within 30 s, "
                  "re-checked alone with 120 s; inputs are at most 128 KiB and never declare a password-KDF work factor above "
                  "2048 PBKDF2/PBKDF1 iterations or scrypt N>4096, r>16, p>16 (mutants that raise a factor beyond that are "
@@ -63,7 +63,7 @@ CLAIM = dict(
          "truncation, every single-byte substitution (4 values), every DER-aware edit, all tiny inputs, cross-type inputs, "
          "seeded random splices, text-grammar edits of every string value at every position, every known algorithm identifier in "
          "every algorithm field (consistently and inconsistently) of artefacts for every key kind followed by every signature check under keys of every kind, authenticated (re-signed) hostile "
-         "certificates driven through chain verification and host name matching, constructed mis-sized payloads and "
+         "certificates driven through chain verification and host name matching, the consuming entry points repeated over a grid of their structural arguments (SM9 recipient identity length, genuine message length, caller-chosen unwrap/key-exchange output length, SM2 key curve P-224..P-521, key-exchange identity lengths, password and content lengths) with artefacts valid in each context, constructed mis-sized payloads and "
          "algebraically exceptional values (infinity, equal/opposite points, zero denominators, unreduced coordinates) derived from valid artefacts, under recover(), "
          "SetPanicOnFault, guard-page placement of the input, a canary check and a per-case watchdog, on the assembly and the "
          "pure-Go build (thorough: also under the race detector's checkptr). Any recovered panic, fault, canary hit, process "
